@@ -689,26 +689,35 @@ name = "c20_probe"
 version = "0.0.0"
 edition = "2021"
 
-[workspace]
-
 [dependencies]
 device-driver = { path = "%s/device-driver" }
+''' % vlib.REPO
+
+# The probe crate is a MEMBER of a workspace: cargo then runs rustc from the workspace root, not from the crate root, so
+# "relative paths resolve against the crate root (CARGO_MANIFEST_DIR)" and "against the compiler's working directory"
+# are different things; the workspace root holds DECOY files under the same relative paths.
+PROBE_WS_TOML = '''[workspace]
+members = ["probe"]
+resolver = "2"
 
 [profile.dev]
 debug = false
 opt-level = 0
 incremental = false
-''' % vlib.REPO
+'''
 
 
 def build_probe(ctx, adefs, probe_names, cli_outputs):
     """Writes the probe crate; returns (dir, pairs) with pairs = [(label, macro_mod, cli_mod, name, variant)]."""
-    pd = os.path.join(ctx.work, "probe")
+    ws = os.path.join(ctx.work, "probe_ws")
+    shutil.rmtree(ws, ignore_errors=True)
+    pd = os.path.join(ws, "probe")
     for sub in ("src", "defs", "abs", "cli"):
-        shutil.rmtree(os.path.join(pd, sub), ignore_errors=True)
         os.makedirs(os.path.join(pd, sub))
+    os.makedirs(os.path.join(ws, "defs"))
+    open(os.path.join(ws, "Cargo.toml"), "w").write(PROBE_WS_TOML)
     open(os.path.join(pd, "Cargo.toml"), "w").write(PROBE_TOML)
-    shutil.copy(os.path.join(vlib.REPO, "Cargo.lock"), os.path.join(pd, "Cargo.lock"))
+    shutil.copy(os.path.join(vlib.REPO, "Cargo.lock"), os.path.join(ws, "Cargo.lock"))
     src = MOCK_RS
     pairs = []
     macro_paths = []         # (root, path as written in the macro, expected file, expected parser)
@@ -737,6 +746,9 @@ macro_rules! script_{n} {{ () => {{
             src += f'pub mod d{n}_cli_{syn} {{ include!("{p}"); script_{n}!(); }}\n'
             rel = f"defs/{name}.{syn}"
             open(os.path.join(pd, rel), "w").write(C.RENDER[syn](d))
+            # decoy under the same relative path at the workspace root (= rustc's working directory): another device
+            decoy = adefs[probe_names[(n + 1) % len(probe_names)]] if len(probe_names) > 1 else {"config": d.get("config") or {}, "objects": []}
+            open(os.path.join(ws, rel), "w").write(C.RENDER[syn](decoy))
             src += f'pub mod d{n}_rel_{syn} {{ device_driver::create_device!(device_name: Dev, manifest: "{rel}"); script_{n}!(); }}\n'
             pairs.append((f"{name}:relative:{syn}", f"d{n}_rel_{syn}", f"d{n}_cli_{syn}"))
             macro_paths.append((pd, rel, os.path.join(pd, rel), syn))
@@ -765,7 +777,7 @@ def build_reject_probe(ctx, rejected):
     for sub in ("src", "defs"):
         shutil.rmtree(os.path.join(pd, sub), ignore_errors=True)
         os.makedirs(os.path.join(pd, sub))
-    open(os.path.join(pd, "Cargo.toml"), "w").write(PROBE_TOML.replace("c20_probe", "c20_probe_reject"))
+    open(os.path.join(pd, "Cargo.toml"), "w").write(PROBE_TOML.replace("c20_probe", "c20_probe_reject") + "\n[workspace]\n\n[profile.dev]\ndebug = false\nopt-level = 0\nincremental = false\n")
     shutil.copy(os.path.join(vlib.REPO, "Cargo.lock"), os.path.join(pd, "Cargo.lock"))
     lines = ["#![allow(warnings)]"]
     where = {}
